@@ -41,6 +41,8 @@ def msgpack_fixed():
         out.append({"id": "load-" + sfx, "doc": load_doc, "root": load_root, "pol": {"mm": "throw", "ov": "throw"}, "stream": stream})
         out.append({"id": "loadskip-" + sfx, "doc": load_doc, "root": load_root, "pol": {"mm": "skip", "ov": "skip"}, "stream": stream})
         out.append({"id": "save-" + sfx, "save": True, "root": save_root, "pol": {}, "stream": stream})
+        if stream:
+            out.append({"id": "save-stream-oexc", "save": True, "root": save_root, "pol": {}, "stream": True, "oexc": True})      # the caller's stream throws on errors
         # members the target never requests, with payloads larger than the reader's window, at the end of the document
         # (skipped by the scope's destructor) and before the requested one (skipped while searching for the key)
         tail_doc = [0x82, 0xa1, 0x61, 5, 0xa1, 0x62, 0xd9, 40] + [120] * 40
@@ -50,6 +52,11 @@ def msgpack_fixed():
         tuple_root = {"k": "obj", "ops": [{"op": "req", "ks": S("t"), "t": "tuple_i32_str_f64"}, {"op": "req", "ks": S("n"), "t": "i32"}]}
         for polname, pol in (("skip", {"mm": "skip", "ov": "skip"}), ("throw", {"mm": "throw", "ov": "throw"})):
             out.append({"id": "tuple-%s-%s" % (polname, sfx), "doc": tuple_doc, "root": tuple_root, "pol": pol, "stream": stream})
+        # a std::unique_ptr member whose pointee is created during the load (must not be orphaned when the load fails midway)
+        uptr_doc = [0x82, 0xa1, 0x70, 0xce, 0, 1, 0, 0, 0xa1, 0x6e, 5]
+        uptr_root = {"k": "obj", "ops": [{"op": "req", "ks": S("p"), "t": "uptr_i32"}, {"op": "req", "ks": S("n"), "t": "i32"}]}
+        out.append({"id": "uptr-" + sfx, "doc": uptr_doc, "root": uptr_root, "pol": {"mm": "throw", "ov": "throw"}, "stream": stream})
+        out.append({"id": "uptr-mismatch-" + sfx, "doc": [0x82, 0xa1, 0x70, 0xa1, 0x78, 0xa1, 0x6e, 5], "root": uptr_root, "pol": {"mm": "throw", "ov": "throw"}, "stream": stream, "exp": "exception"})
         only_a = {"k": "obj", "ops": [{"op": "req", "ks": S("a"), "t": "i8"}]}
         out.append({"id": "unreadtail-" + sfx, "doc": tail_doc, "root": only_a, "pol": {"mm": "throw", "ov": "throw"}, "stream": stream})
         out.append({"id": "unreadhead-" + sfx, "doc": head_doc, "root": only_a, "pol": {"mm": "throw", "ov": "throw"}, "stream": stream})
@@ -83,6 +90,7 @@ def text_fixed(arch, exe):
         out.append({"id": "save-" + sfx, "save": True, "root": save_root, "pol": {}, "stream": stream})
         out.append({"id": "load-" + sfx, "doc": saved[0]["mem"], "root": load_root, "pol": {"mm": "throw", "ov": "throw"}, "stream": stream})
     out.append({"id": "save-utf16", "save": True, "root": save_root, "pol": {}, "opt": wide, "stream": True})
+    out.append({"id": "save-stream-oexc", "save": True, "root": save_root, "pol": {}, "stream": True, "oexc": True})      # the caller's stream throws on errors
     if arch == "json":
         # a value the format cannot carry, detected by the writer midway through the save (library-detected error): NaN after other members,
         # in every output configuration (memory / stream x compact / pretty x UTF-8 / UTF-16)
@@ -161,6 +169,9 @@ def fault_leg(chk, tier, arch):
     for i, (s, p) in enumerate(zip(scen, probes)):
         if "e" in p:
             chk.fail("%s: fault-free run of %s ended with %s" % (arch, s["id"], p["e"]), {"arch": arch, "scenario": s, "observed": p})
+            continue
+        if p.get("leak", 0) != 0:
+            chk.fail("%s: fault-free run of %s leaked %d block(s)" % (arch, s["id"], p["leak"]), {"arch": arch, "scenario": s, "observed": p})
             continue
         if "exp" in s and outcome(p) != s["exp"]:
             chk.fail("%s: fault-free run of %s: the specification prescribes %s, observed %s" % (arch, s["id"], s["exp"], json.dumps(p["exc"])),
